@@ -9,6 +9,7 @@ import (
 	"sync/atomic"
 	"time"
 
+	"github.com/nspcc-dev/bbolt"
 	"github.com/nspcc-dev/neo-go/pkg/util"
 	"github.com/nspcc-dev/neofs-node/pkg/local_object_storage/blobstor/common"
 	"github.com/nspcc-dev/neofs-node/pkg/local_object_storage/blobstor/fstree"
@@ -93,6 +94,7 @@ func newFSTree(dir string, opts ...fstree.Option) *fstree.FSTree {
 
 type shardCfg struct {
 	wc       bool
+	sync     bool // keep fsync on (crash experiments); off by default for speed
 	epoch    *epochSrc
 	extra    []shard.Option
 	wcOpts   []writecache.Option
@@ -104,7 +106,7 @@ func shardOptions(dir string, cfg shardCfg) []shard.Option {
 	if cfg.epoch == nil {
 		cfg.epoch = &epochSrc{}
 	}
-	bs := fstree.New(append([]fstree.Option{fstree.WithPath(filepath.Join(dir, "blob")), fstree.WithDepth(1)}, cfg.fsOpts...)...)
+	bs := fstree.New(append([]fstree.Option{fstree.WithPath(filepath.Join(dir, "blob")), fstree.WithDepth(1), fstree.WithNoSync(!cfg.sync), fstree.WithCombinedWriteInterval(200 * time.Microsecond)}, cfg.fsOpts...)...)
 	opts := []shard.Option{
 		shard.WithBlobstor(bs),
 		shard.WithMetaBaseOptions(append([]meta.Option{
@@ -112,12 +114,13 @@ func shardOptions(dir string, cfg shardCfg) []shard.Option {
 			meta.WithPermissions(0o700),
 			meta.WithEpochState(cfg.epoch),
 			meta.WithMaxBatchDelay(time.Microsecond),
+			meta.WithBoltDBOptions(&bbolt.Options{NoSync: !cfg.sync, NoGrowSync: !cfg.sync, NoFreelistSync: true, Timeout: time.Second, InitialMmapSize: 64 << 20}),
 		}, cfg.metaOpts...)...),
 		shard.WithGCRemoverSleepInterval(time.Hour),
 	}
 	if cfg.wc {
 		opts = append(opts, shard.WithWriteCache(true),
-			shard.WithWriteCacheOptions(append([]writecache.Option{writecache.WithPath(filepath.Join(dir, "wc"))}, cfg.wcOpts...)...))
+			shard.WithWriteCacheOptions(append([]writecache.Option{writecache.WithPath(filepath.Join(dir, "wc")), writecache.WithNoSync(!cfg.sync)}, cfg.wcOpts...)...))
 	}
 	return append(opts, cfg.extra...)
 }
